@@ -47,6 +47,12 @@ CLAIMED = {
    design="5/C07",
    note="Trusted: Sgr.tla lenient reading (codes 5 6 22-29 59 may or may not take effect; selecting an underline kind may replace previously selected kinds), VtParser.tla, TLC. Parameter lists outside the well-formed grammar leave the style unconstrained until the next full reset.",
    technique="TLA+ spec (WinconExtract = VtParser + Sgr) + TLC: enumerated SGR sequences with allowed-style sets replayed under all chunkings; recorded traces validated by TLC"),
+ "C17": dict(
+   level="model_checking",
+   text="TLC checks that the ideal algorithm (fg code, bg code, data, reset) satisfies the observational specification WinconAnsi!CallOk for all 17x17 colour pairs x data x inner-writer scripts (any whole-character prefix of the data accepted, Interrupted/WouldBlock/Other at any of the up to four inner writes, partial acceptance of a code) and emits every script; each is replayed against a scripted Box<dyn Write>, Vec<u8> and File, and every call is validated by Trace_WinconAnsi: the accepted bytes are run through the VtParser specification and the strict SGR reading - data shown in exactly the requested colours, default restored, nothing but data when no colour is given, Strip gives the data back, reported count = data bytes accepted, inner failures surface.",
+   design="5/C17",
+   note="Trusted: WinconAnsi.tla, Sgr.tla, VtParser.tla, Strip.tla, TLC. Data is plain text; prefixes are cut at character boundaries. Exhaustive over the stated script space in both tiers (thorough adds more data strings).",
+   technique="TLA+ spec (WinconAnsi judged through VtParser+Sgr) + TLC: exhaustive script enumeration replayed into write_colored, calls validated by TLC"),
 }
 PENDING_REASON = "check not built yet in this revision of /verif (planned with the TLA+ specification, see DESIGN.md section 5); not claimed until its quick command exists"
 
